@@ -52,7 +52,7 @@ func (c *underefChecker) VisitExpr(expr ast.Expr) {
 		}
 
 		if expr, ok := expr.X.(*ast.StarExpr); ok {
-			if c.checkStarExpr(expr) {
+			if c.checkStarExpr(expr) && !c.isMethodOfDefinedPtr(n, expr) {
 				c.warnSelect(n)
 			}
 		}
@@ -67,6 +67,17 @@ func (c *underefChecker) VisitExpr(expr ast.Expr) {
 			}
 		}
 	}
+}
+
+// isMethodOfDefinedPtr reports whether sel selects a method through a value of
+// a defined pointer type (type P *T): P has no methods, so (*p).M() can't be
+// written as p.M(). Field selectors are fine.
+func (c *underefChecker) isMethodOfDefinedPtr(sel *ast.SelectorExpr, deref *ast.StarExpr) bool {
+	if _, ok := c.ctx.TypeOf(deref.X).(*types.Pointer); ok {
+		return false
+	}
+	selection := c.ctx.TypesInfo.Selections[sel]
+	return selection != nil && selection.Kind() != types.FieldVal
 }
 
 func (c *underefChecker) isPtrRecvMethodCall(fn *ast.Ident) bool {
